@@ -21,24 +21,36 @@ BUFSZ = 8191  # libstdc++ basic_filebuf flushes BUFSIZ-1 bytes at a time (observ
 class Tools:
     def __init__(self, flavour="plain"):
         self.build = vlib.librime_build(flavour)
-        self.deployer = os.path.join(self.build, "bin", "rime_deployer")
         san = flavour == "asan"
-        import hashlib
-        tag = hashlib.md5((vlib.REPO + "|" + self.build).encode()).hexdigest()[:8]
-        out = os.path.join(vlib.WORK, "bin", "deptool-%s-%s" % (flavour, tag))
-        tmp = "%s.tmp%d" % (out, os.getpid())
-        # build under a private name, then rename: another check may be executing the previous binary
-        vlib.cxx_build(tmp, [os.path.join(HERE, "deptool.cc")], flags="-I%s/src" % self.build,
-                       libs="-L%s/lib -lrime -lglog -Wl,-rpath,%s/lib" % (self.build, self.build), san=san)
-        os.replace(tmp, out)
-        self.deptool = out
+        # private snapshot of the freshly built binaries: the shared build directory may be relinked by another
+        # check (after a commit to /repo) while this run is still killing and redeploying
+        snap = os.path.join(vlib.CACHE, "run.%d" % os.getpid(), "snap-" + flavour)
+        os.makedirs(os.path.join(snap, "lib"), exist_ok=True)
+        os.makedirs(os.path.join(snap, "bin"), exist_ok=True)
+        with vlib.Lock(os.path.join(self.build, ".verif.lock")):
+            for f in os.listdir(os.path.join(self.build, "lib")):
+                src = os.path.join(self.build, "lib", f)
+                dst = os.path.join(snap, "lib", f)
+                if os.path.lexists(dst):
+                    os.remove(dst)
+                if os.path.islink(src):
+                    os.symlink(os.readlink(src), dst)
+                elif f.startswith("librime"):
+                    shutil.copy2(src, dst)
+            shutil.copy2(os.path.join(self.build, "bin", "rime_deployer"), os.path.join(snap, "bin", "rime_deployer"))
+        self.snap = snap
+        self.deployer = os.path.join(snap, "bin", "rime_deployer")
+        self.deptool = os.path.join(snap, "bin", "deptool")
+        vlib.cxx_build(self.deptool, [os.path.join(HERE, "deptool.cc")], flags="-I%s/src" % self.build,
+                       libs="-L%s/lib -lrime -lglog -Wl,-rpath,%s/lib" % (snap, snap), san=san)
         self.killso = os.path.join(vlib.WORK, "bin", "killpoint.so")
         src = os.path.join(HERE, "killpoint.c")
         if not os.path.exists(self.killso) or os.path.getmtime(self.killso) < os.path.getmtime(src):
             tmpso = "%s.tmp%d" % (self.killso, os.getpid())
             vlib.sh("gcc -shared -fPIC -O1 -o %s %s -ldl" % (tmpso, src), check=True, timeout=120)
             os.replace(tmpso, self.killso)
-        self.env = {"GLOG_logtostderr": "1", "ASAN_OPTIONS": "detect_leaks=0", "UBSAN_OPTIONS": "print_stacktrace=1"}
+        self.env = {"GLOG_logtostderr": "1", "ASAN_OPTIONS": "detect_leaks=0", "UBSAN_OPTIONS": "print_stacktrace=1",
+                    "LD_LIBRARY_PATH": os.path.join(snap, "lib") + (":" + os.environ["LD_LIBRARY_PATH"] if os.environ.get("LD_LIBRARY_PATH") else "")}
 
     # -- deployment
     def deploy(self, ws, crash_at=None, crashlog=None, deplog=None, kill_at=None, killlog=None, preload=False, timeout=600):
